@@ -13,7 +13,9 @@ CHECKS = {
         text="Theorems for every vertex map and every element list (no size bound): f.A.g = sum of area*grad.grad (triangles and "
              "tetrahedra, gradient characterised by its defining equations), symmetry, A.1 = 0, PSD, non-zero denominators, "
              "independence of element vertex order/orientation. The per-element kernels of solver.py are re-traced from source on "
-             "every run and bridged to the model by proof; whole matrices are compared differentially.",
+             "every run and bridged to the model by proof, and so is the anisotropic branch of Solver.__init__ (weights exp(-a|c|), columns, "
+             "scalar/pair aniso, lump and aniso_smooth passed on) given a symbolic output of curvature_tria, and curvature_tria itself given "
+             "a symbolic output of curvature(); whole matrices are compared differentially.",
         ref="DESIGN.md 6/C01",
         note=NOTE + "theorems hold under the complement of the code's degeneracy guard; generalisation from the traced element to all "
              "meshes is cross-checked differentially.",
@@ -211,10 +213,12 @@ CHECKS = {
              "anisotropic stiffness form is symmetric, constant-annihilating, PSD for non-negative weights, never above the isotropic energy "
              "for weights <= 1 (Bessel) and equal to it for weights 1 (Parseval in the plane); exp(-a|c|) in (0,1]. The eig output is "
              "captured and the post-processing compared with the model vertex by vertex. Monitored: orthonormality of LAPACK's vectors; "
-             "similarity invariance of the values (oracle); sphere/cylinder clauses are shape-family statements, not proved.",
+             "similarity invariance of the values (oracle); sphere/cylinder clauses are shape-family statements, not proved. "
+             "curvature_tria (pooling, projection, floors, cross product) is re-traced from source on every run given a symbolic output of "
+             "curvature() and bridged to the model by proof.",
         ref="DESIGN.md 6/C17",
         note=NOTE + "tensor assembly (arccos, edge tensors) before the eigen-decomposition is not modelled; LAPACK contract assumed.",
-        technique="Lean 4 proof of the frame post-processing and anisotropic form algebra, tied by captured eigen-decompositions and differential driver"),
+        technique="Lean 4 proof of the frame post-processing and anisotropic form algebra, tied by symbolic tracing of curvature_tria, captured eigen-decompositions and differential driver"),
     "C18": dict(
         text="PARTIAL. Theorems: inverse_stereographic always lands on the unit sphere; both stereographic pairs are mutually inverse (the "
              "unrepaired final step was the mirror image); Moebius maps preserve cross-ratios and their images are on the sphere; the "
